@@ -35,6 +35,14 @@ func (mp *ConsensusMessagesFilter) HandleConsensusMessage(message interfaces.Con
 		return errors.Errorf("Signed header of %T declares message type %s - ignoring message H=%d V=%d", message, message.MessageType(), message.BlockHeight(), message.View())
 	}
 
+	if nvm, ok := message.(*interfaces.NewViewMessage); ok {
+		// the embedded proposal becomes this view's PREPREPARE; prepared proofs built from it later declare the type
+		// PREPREPARE, so a signature over a header declaring anything else would not verify inside them
+		if embedded := nvm.Content().Message().SignedHeader(); len(embedded.Raw()) > 0 && embedded.MessageType() != protocol.LEAN_HELIX_PREPREPARE {
+			return errors.Errorf("Proposal embedded in NEW_VIEW declares message type %s - ignoring message H=%d V=%d", embedded.MessageType(), message.BlockHeight(), message.View())
+		}
+	}
+
 	if !hasCanonicalSignedHeader(message) {
 		return errors.Errorf("Signed header of %T is not canonically encoded - ignoring message H=%d V=%d", message, message.BlockHeight(), message.View())
 	}
